@@ -10,6 +10,7 @@ from .c01 import ProgramProperty, norm_path, trim
 
 
 class C08(ProgramProperty):
+    configs = ('A', 'C')
     id = 'C08'
     technique = 'metamorphic property testing: one generated CST rendered under two layouts (base vs random / single-dimension), trees compared with ranges erased'
     level_text = ('~100k (quick) / 600k (thorough) generated programs, each parsed in its base layout and in layout variants (LF/CRLF/CR, trailing blanks, blank and '
